@@ -525,7 +525,9 @@ class Categorical(Likelihood):
         norm_term = tree_map(
             partial(jnp.sum, axis=self.axis, keepdims=True), preds * tangents
         )
-        return preds * tangents - preds * sum(norm_term)
+        # The normalization is per category vector (`keepdims` along `axis`),
+        # summing it over the whole batch would couple independent data points
+        return preds * tangents - preds * norm_term
 
     def left_sqrt_metric(self, primals, tangents):
         from jax.nn import softmax
@@ -535,5 +537,4 @@ class Categorical(Likelihood):
         norm_term = tree_map(
             partial(jnp.sum, axis=self.axis, keepdims=True), sqrtp * tangents
         )
-        norm_term = sum(norm_term)
         return sqrtp * (tangents - sqrtp * norm_term)
